@@ -76,7 +76,17 @@ def run(ctx: Ctx, proofs_ok: bool):
             rows_hist.append(rows)
             sc.update(t)
             seen += b
+            if not (math.isfinite(float(sc.mean)) and math.isfinite(float(sc.M2))):
+                # a non-finite statistic on finite data is a failure of the property itself (and cannot be a Coq literal)
+                bad = {"unit": "RewardScaler.update", "dtype": kind, "history": hist[:len(rows_hist)], "history_as_rows": rows_hist,
+                       "observed": {"count": int(sc.count), "mean": float(sc.mean), "M2": float(sc.M2)},
+                       "expected": "finite mean and M2 (all inputs are finite)"}
+                spec_fail.append(bad)
+                break
             obs.append((int(sc.count), F(sc.mean), F(sc.M2)))
+        if bad is not None:
+            ctx.count("scaler_histories_nonfinite")
+            continue
         n = len(seen)
         eps = 1e-11 if kind == "f64" else 2e-5
         tol = Fraction(eps) * (1 + mag) ** 2 * n
